@@ -11,19 +11,23 @@ PROPERTY_RULES = {
     "C06": ["r_b1", "r_o3"],
     "C07": ["r_a12"],
     "C08": ["r_a11", "r_o3"],
-    "C09": ["r_c4", "r_c1"],
+    "C09": ["r_c4", "r_c1", "r_c5"],
     "C10": ["r_c2", "r_c1", "r_e1"],
-    "C11": ["r_c2", "r_c1", "r_a6", "r_e1"],
+    "C11": ["r_c2", "r_c1", "r_a6", "r_c5", "r_c4", "r_e1"],
     "C12": ["r_c4", "r_e1"],
     "C13": ["r_a6", "r_e1"],
     "C14": ["r_d1"],
     "C15": ["r_d2", "r_d3"],
     "C16": ["r_e1"],
+    "C17": ["r_c6", "r_a3", "r_c5"],
 }
 
 LEVEL = {"C14": "proof"}
 
 CLAUSES = {
+    "C17": "no integer reported by a safe user trait (remaining, chunks_vectored count, size_hint, Cursor::position) reaches an unsafe extent (copy length, "
+           "raw-slice length, pointer offset, set_len, advance_mut, array cast, handle extent fields) unsanitised, interprocedurally; copy loops use real slice "
+           "lengths; from_owner calls as_ref once, after boxing, and unwinds into Drop",
     "C15": "Debug: the sets of byte values reaching each write partition 0..=255 and every branch's template decodes, by the byte-string-literal grammar, "
            "to exactly the guarded byte, framed by b\" and \"; hex: one {:02x}/{:02X} per byte; serde: each entry point passes its whole argument through "
            "content-preserving conversions, visit_seq keeps every element in order",
@@ -69,6 +73,7 @@ LEVEL_NOTE = {
     "C14": "trusted: rustc type checking/trait resolution, std slice comparison and hash impls, std views (as_bytes, deref, [..]); views show the contents (C01).",
 }
 TECHNIQUE = {
+    "C17": "interprocedural taint analysis over MIR expression trees (sources: results of unresolved user-trait calls; sinks: unsafe extents; sanitisers: min / dominating guards)",
     "C15": "finite-domain (0..=255) value-set propagation through the byte comparisons in MIR joined with format templates from the expanded AST; provenance flow for serde",
     "C01": "signature/impl-table scan of Bytes (effect property) + dominance rules for byte moves and re-basing over MIR provenance trees + token accounting",
     "C04": "per-write justification rules over MIR provenance trees and dominating guards (A8), path enumeration of the reservation helper, arithmetic taint (E1)",
@@ -86,6 +91,8 @@ TECHNIQUE = {
     "C11": "name-grammar vs encode-signature agreement over MIR callees, taint+guard analysis of overflow asserts",
     "C16": "taint + dominating-guard analysis of every MIR overflow/shift assert (profile-dependent arithmetic)",
 }
+LEVEL_NOTE["C17"] = ("trusted: slices returned by safe user code have their real length; BufMut is an unsafe trait (its implementors are trusted). NOT decided: "
+                      "leak-freedom when user code panics at arbitrary points (unwinding paths are analysed for from_owner only).")
 LEVEL_NOTE["C15"] = ("trusted: core::fmt's rendering of {} for char and {:02x}/{:02X} for u8 (modelled, not executed); escapes are self-delimiting per the Rust "
                       "reference grammar, so per-byte correctness implies whole-string correctness. NOT decided: round trips through arbitrary serde (de)serializers.")
 LEVEL_NOTE["C08"] = ("trusted: rustc, std atomics. NOT decided: 'an empty sole owner can always reclaim / reserve does not allocate' — an arithmetic "
